@@ -21,6 +21,8 @@ def grid_np(kind, n, seed=0, plane=0):
         r = min(2.0, 20.0 ** (1.0 / max(n - 2, 1)))
         d = r ** np.arange(n - 1, dtype=np.float64)
         u = np.concatenate([[0.0], np.cumsum(d)]) / d.sum()
+    elif kind == "nearuni":         # uniform up to a relative jitter of 3e-6 of a spacing: NOT equidistant
+        u = (i + 3e-6 * np.cos(2.4 * i + 0.3)) / (n - 1)
     elif kind == "jitter":          # value plane: uniform grid with bounded seed-dependent jitter (ratio <= 4)
         rng = np.random.RandomState((int(seed) * 7919 + int(plane) * 104729 + n) % (2 ** 31 - 1))
         u = (i + 0.6 * (rng.rand(n) - 0.5)) / (n - 1)
